@@ -2,6 +2,12 @@
 
 package mocktikv
 
+import (
+	"github.com/gogo/protobuf/proto"
+	"github.com/pingcap/kvproto/pkg/errorpb"
+	"github.com/pingcap/kvproto/pkg/kvrpcpb"
+)
+
 // VerifNewSession creates the per-request session object the mock's own RPC layer uses for its
 // region / epoch / leader checks, so that other simulated backends apply exactly the same checks.
 func VerifNewSession(cluster *Cluster, storeID uint64) *Session {
@@ -12,4 +18,37 @@ func VerifNewSession(cluster *Cluster, storeID uint64) *Session {
 // CheckRequestContext call addressed.
 func (s *Session) VerifRegionRange() (start, end []byte) {
 	return MvccKey(s.startKey).Raw(), MvccKey(s.endKey).Raw()
+}
+
+// VerifCheckFollowerRead is CheckRequestContext for a read that a follower may serve (TiKV serves a replica read
+// after a read-index round with the leader and a stale read from its own data once the safe timestamp allows it):
+// store, region membership and epoch are checked as usual, leadership is not. It reports ok=false when the store holds
+// no peer of the region or the region has no leader at all (the ordinary check then produces the region error).
+func (s *Session) VerifCheckFollowerRead(ctx *kvrpcpb.Context) (regionErr *errorpb.Error, ok bool) {
+	if p := ctx.GetPeer(); p != nil && p.GetStoreId() != s.storeID {
+		return nil, false
+	}
+	region, leaderID := s.cluster.GetRegion(ctx.GetRegionId())
+	if region == nil || leaderID == 0 {
+		return nil, false
+	}
+	mine, leaderFound := false, false
+	for _, p := range region.Peers {
+		if p.GetStoreId() == s.storeID {
+			mine = true
+		}
+		if p.GetId() == leaderID {
+			leaderFound = true
+		}
+	}
+	if !mine || !leaderFound {
+		return nil, false
+	}
+	if !proto.Equal(region.GetRegionEpoch(), ctx.GetRegionEpoch()) {
+		return s.CheckRequestContext(ctx), true // the ordinary check builds the epoch error (or NotLeader: equally true)
+	}
+	s.startKey, s.endKey = region.StartKey, region.EndKey
+	s.isolationLevel = ctx.IsolationLevel
+	s.resolvedLocks = ctx.ResolvedLocks
+	return nil, true
 }
